@@ -282,6 +282,10 @@ def check_approximation_step(out: Outcome, copy, done, x) -> None:
     if last is None or last[0] not in ("finite_differences", "centered_differences"):
         return
     mode, h = last[0], Fr(last[1])
+    # at an input no cache has seen (3 away from the generated one, far beyond every cache tolerance): at an input
+    # linearized *before* the approximation was set, a cache that keeps every entry (HDF5Cache) answers with the
+    # Jacobian stored then - for the original as for the copy - and the difference quotient is never computed
+    x = {k: np.asarray(x.get(k, copy.io.input_grammar.defaults[k]), dtype=float) + 3.0 for k in copy.in_sizes}
     st, jac = _call(copy.linearize, _fresh(x), compute_all_jacobians=True)
     if st == "exc":
         out.fail("setting-not-carried", f"the restored discipline cannot linearize with {mode} (step {h}): {jac}")
